@@ -186,6 +186,38 @@ func blsVariants(n, t int) ([]c09Variant, error) {
 		}
 		return w.Verify(digest, sigma)
 	})
+	if t >= 2 {
+		// the same genuine assignment handed over in other orders must still verify ...
+		perm := func(name string, order []int) {
+			add("control-signers-"+name, true, func() error {
+				var sg [][]byte
+				var idx []int
+				for _, k := range order {
+					sg = append(sg, partial[S[k]-1])
+					idx = append(idx, S[k])
+				}
+				return verdictOfSigs(idx, sg, digest)()
+			})
+			// ... and a wrong assignment in that order must still be rejected
+			add("assignment-shifted-in-order-"+name, false, func() error {
+				var sg [][]byte
+				var idx []int
+				for i, k := range order {
+					sg = append(sg, partial[S[order[(i+1)%len(order)]]-1])
+					idx = append(idx, S[k])
+				}
+				return verdictOfSigs(idx, sg, digest)()
+			})
+		}
+		desc := make([]int, t)
+		rot := make([]int, t)
+		for i := 0; i < t; i++ {
+			desc[i] = t - 1 - i
+			rot[i] = (i + 1) % t
+		}
+		perm("descending", desc)
+		perm("rotated", rot)
+	}
 	add("reject-twice-same-verdict", false, func() error {
 		e1 := v.Verify(digest2, sigma)
 		e2 := v.Verify(digest2, sigma)
@@ -632,6 +664,48 @@ func psObjVariants(l int) ([]c09Variant, error) {
 	vs = append(vs, c09Variant{name: "proof-builder-on-genuine-signature", accept: true, run: func() error {
 		h := curve.GenG1.Mul(curve.NewRandomZr(rand.Reader))
 		return verify(ps.PoKofSig(&pp, pk, h, h.Mul(exp), msg))
+	}})
+	vs = append(vs, c09Variant{name: "verify-same-proof-object-twice", accept: true, run: func() error {
+		h := curve.GenG1.Mul(curve.NewRandomZr(rand.Reader))
+		pok := ps.PoKofSig(&pp, pk, h, h.Mul(exp), msg)
+		before := pok.Bytes()
+		if err := pok.Verify(&pp, pk); err != nil {
+			return fmt.Errorf("first verification: %w", err)
+		}
+		if err := pok.Verify(&pp, pk); err != nil {
+			return fmt.Errorf("second verification of the same proof object: %w", err)
+		}
+		if !bytes.Equal(before, pok.Bytes()) {
+			return fmt.Errorf("verifying changed the proof object (its serialisation differs afterwards)")
+		}
+		return verify(pok)
+	}})
+	vs = append(vs, c09Variant{name: "altered-proof-object-verified-twice", accept: false, run: func() error {
+		h := curve.GenG1.Mul(curve.NewRandomZr(rand.Reader))
+		pok := ps.PoKofSig(&pp, pk, h, h.Mul(exp), msg)
+		var raw ps.RawSigPok
+		if _, err := asn1.Unmarshal(pok.Bytes(), &raw); err != nil {
+			return fmt.Errorf("perturbation had no effect")
+		}
+		// h'^eps replaced by h'^eps - nu: rejected; a verification that adds nu onto the object would make it pass next time
+		hp, err1 := curve.NewG1FromBytes(raw.Data[2])
+		nu, err2 := curve.NewG1FromBytes(raw.Data[3])
+		if err1 != nil || err2 != nil {
+			return fmt.Errorf("perturbation had no effect")
+		}
+		hp.Sub(nu)
+		raw.Data[2] = hp.Bytes()
+		alt, _ := asn1.Marshal(raw)
+		var v ps.Verifier
+		if err := v.Init(curve, l, tpk); err != nil {
+			return err
+		}
+		e1 := v.Verify(alt)
+		e2 := v.Verify(alt)
+		if e1 == nil || e2 == nil {
+			return nil
+		}
+		return e1
 	}})
 	vs = append(vs, c09Variant{name: "proof-builder-on-identity-signature-without-any-share", accept: false, run: func() error {
 		id := curve.GenG1.Copy()
